@@ -494,6 +494,87 @@ fn big_text_case() -> BoxedStrategy<AdfCase> {
     prop_oneof![many, deep, spaced, long_labels].boxed()
 }
 
+
+/// State carried from one parse to the next on the same thread: a number of malformed texts (each possibly many times)
+/// are rejected first, then a valid text must still be accepted with the right formulas.
+#[derive(Clone, Debug, Serialize, Deserialize)]
+pub struct AfterRejects {
+    pub bad: Vec<(AdfCase, Mutation, u8)>,
+    /// how often every malformed text is parsed: 1, 40, 300, 700
+    pub repeat: u8,
+    pub good: AdfCase,
+}
+
+fn empty_operand(text: &str, which: u8, kind: u8) -> Option<String> {
+    // replace the condition of one ac fact (found outside quotes) by a formula with an empty operand
+    let out = outside_quotes(text);
+    let starts: Vec<usize> = out.windows(3).filter(|w| w[0].1 == 'a' && w[1].1 == 'c' && w[2].1 == '(' && w[1].0 == w[0].0 + 1 && w[2].0 == w[1].0 + 1).map(|w| w[0].0).collect();
+    if starts.is_empty() {
+        return None;
+    }
+    let st = starts[which as usize % starts.len()];
+    // the fact ends at the next '.' outside quotes
+    let end = out.iter().find(|(i, c)| *i > st && *c == '.')?.0;
+    let comma = out.iter().find(|(i, c)| *i > st && *c == ',')?.0;
+    if comma > end {
+        return None;
+    }
+    let head = &text[..=comma];
+    let tail = &text[end..];
+    let body = match kind % 5 {
+        0 => "neg()",
+        1 => "and(c(v),)",
+        2 => "",
+        3 => "or(,c(f))",
+        _ => "neg(neg(neg()))",
+    };
+    Some(format!("{head}{body}){tail}"))
+}
+
+fn c08_after_rejects(c: &AfterRejects, st: &mut Stats) -> CheckResult {
+    let reps = [1usize, 40, 300, 700][c.repeat as usize % 4];
+    let mut rejected = 0usize;
+    for (adf, m, e) in &c.bad {
+        let text = adf.text();
+        let mutant = if *e < 200 { empty_operand(&text, *e, e / 5) } else { mutate(&text, m).map(|x| x.0) };
+        let Some(mutant) = mutant else { continue };
+        if refparse::accepts(&mutant) {
+            st.label("discarded:reference_accepts_mutant");
+            continue;
+        }
+        for _ in 0..reps {
+            match parser_verdict(&mutant) {
+                Err(p) => return Err(format!("parser panicked on malformed text {mutant:?}: {p}")),
+                Ok(true) => return Err(format!("malformed text accepted: {mutant:?}")),
+                Ok(false) => rejected += 1,
+            }
+        }
+    }
+    st.label(&format!("rejected_before>={}", [0usize, 1, 100, 500, 1000].iter().rev().find(|&&x| rejected >= x).unwrap()));
+    c08_accept(&c.good, st).map_err(|e| format!("after {rejected} rejected malformed texts on the same thread: {e}"))
+}
+
+fn after_rejects_case() -> BoxedStrategy<AfterRejects> {
+    (
+        proptest::collection::vec(
+            (
+                gen::adf_case(parser_adf(4, 4), LabelClass::Quoted),
+                prop_oneof![
+                    any::<u16>().prop_map(Mutation::DelBracket),
+                    (any::<u16>(), any::<bool>()).prop_map(|(a, b)| Mutation::InsBracket(a, b)),
+                    (any::<u16>(), 0u8..6).prop_map(|(a, b)| Mutation::Arity(a, b)),
+                ],
+                any::<u8>(),
+            ),
+            0..4,
+        ),
+        any::<u8>(),
+        gen::adf_case(parser_adf(5, 6), LabelClass::Quoted),
+    )
+        .prop_map(|(bad, repeat, good)| AfterRejects { bad, repeat, good })
+        .boxed()
+}
+
 pub fn c08(tier: Tier) -> PropSpec {
     PropSpec {
         id: "C08",
@@ -506,7 +587,7 @@ pub fn c08(tier: Tier) -> PropSpec {
                biodivine for labels it accepts) denote the same function. reject: mutants of valid texts - delete/insert one bracket \
                outside quotes, delete a '.', wrong arity of c/neg/binary operators, trailing non-blank garbage - kept only if an \
                independent reference recogniser written from the documented grammar also rejects them; oracle: Err, no panic. \
-               tokens: random token soups; parser verdict must equal the reference recogniser's, no panic. Non-trivial: accepted text \
+               tokens: random token soups; parser verdict must equal the reference recogniser's, no panic. accept-after-rejects: up to three malformed texts (bracket / arity mutants, empty operands), each parsed 1..700 times, then a valid text on the same thread with the accept oracle. reject-with-logging: mutants full of multi-byte characters while a logger formats every record. Non-trivial: accepted text \
                with a keyword-like or quoted label and a binary connective; mutant whose edit lies inside a nested formula or removes a \
                terminator / appends garbage.",
         assumptions: vec![
@@ -542,6 +623,40 @@ pub fn c08(tier: Tier) -> PropSpec {
                 },
                 c08_reject,
             ),
+            // rejected texts first, then an accepted one, all on one thread (and thousands of cases per thread)
+            Part::with_shrink("accept-after-rejects", tier.pick(4000, 40000), 60, after_rejects_case, c08_after_rejects),
+            // malformed texts full of multi-byte characters while a logger is active (error reporting code runs)
+            Box::new(Logged(Part::new(
+                "reject-with-logging",
+                tier.pick(6000, 60000),
+                || {
+                    (
+                        gen::adf_case(parser_adf(5, 4), LabelClass::Quoted),
+                        prop_oneof![
+                            3 => any::<u16>().prop_map(Mutation::DelBracket),
+                            3 => (any::<u16>(), any::<bool>()).prop_map(|(a, b)| Mutation::InsBracket(a, b)),
+                            2 => any::<u16>().prop_map(Mutation::DelDot),
+                            3 => (any::<u16>(), 0u8..6).prop_map(|(a, b)| Mutation::Arity(a, b)),
+                            2 => any::<u8>().prop_map(Mutation::Garbage),
+                        ],
+                        proptest::collection::vec(0u8..6, 8),
+                    )
+                        .prop_map(|(mut adf, m, marks)| {
+                            for (i, l) in adf.labels.iter_mut().enumerate() {
+                                match marks[i % marks.len()] {
+                                    0 => l.push_str("\u{20ac}\u{65e5}\u{672c}"),
+                                    1 => *l = format!("\u{e9}{l}\u{1f600}"),
+                                    2 => l.push('\u{fc}'),
+                                    3 => *l = "\u{3b1}\u{3b2}\u{3b3}\u{3b4}\u{3b5}\u{3b6}\u{3b7}\u{3b8}".chars().take(2 + i).collect::<String>() + l,
+                                    _ => {}
+                                }
+                            }
+                            MutCase { adf, m }
+                        })
+                        .boxed()
+                },
+                c08_reject,
+            ))),
             Part::new(
                 "tokens",
                 tier.pick(300000, 3000000),
@@ -550,6 +665,7 @@ pub fn c08(tier: Tier) -> PropSpec {
             ),
             // the CLI on valid files (all label spellings incl. blanks, layouts): the grounded line must be right
             crate::props::cli::sem_cli_part("cli-accept", &[crate::props::cli::Flag::Grd, crate::props::cli::Flag::Com], tier.pick(150, 1500)),
+            crate::props::cli::deep_cli_part("cli-accept-deep", tier.pick(48, 480)),
             // the CLI clause: no answer for malformed text in any library mode
             Part::with_shrink(
                 "cli-reject",
